@@ -71,6 +71,122 @@ theorem C18_delim_reads_back_value (s ctx : Str) (unq tri : Bool) (limit : Nat) 
     simp only [ne_eq, hnone, not_false_eq_true, decide_true]
     simp only [Model.Parser.parseValue, bind, Model.Parser.P.bind, hnt', hcs, pure, Model.Parser.P.pure, Model.Parser.consume]
 
+open Spec.Lexical Model.Lexer Model.Parser Model.Writer in
+/-- **C18, text fields at the level of the parsed value.**  For every string of CIF 2.0 characters for which the text-field
+    delimiter is recommended (any flags, any limit), the presentation `write_text` emits with the protocol flags derived from the
+    analysis (`C18_text_field_reads_back_all`: this is what `write_char` / `cif_write` emits) is turned by the parser's value production —
+    `parse_value` with line unfolding and prefix removal enabled, CIF 2.0 mode, behind any admissible whitespace, under every callback
+    policy — into the QUOTED CHARACTER value with text exactly `s`; nothing is reported, exactly the presentation is consumed. -/
+theorem C18_text_field_reads_back_value (s : Str) (unq tri : Bool) (limit : Nat)
+    (hchars : okUnits .cif2 none s = true) (hd : (analyze s unq tri limit).delimLength = 2)
+    (o : Opts) (hdia : o.dia = .cif2) (hunf : o.unfold = true) (hprem : o.prem = true) :
+    ∃ body : Str,
+      (∀ c : Ctx, writeText c s (Lemmas.WriterChar.charFlags (analyze s unq tri limit)).1 (Lemmas.WriterChar.charFlags (analyze s unq tri limit)).2
+          = .ok (a!"\n;" ++ body ++ a!"\n;", { c with lastColumn := 1 })) ∧
+      (∀ (w0 : List WsAtom) (ctx : Str) (line col : Nat) (lt : TokType) (pol : Policy) (W : Model.Parser.W) (fuel : Nat),
+        (∀ x ∈ w0, x.ok .cif2 = true) → (afterWsOf lt = true ∨ ∀ b rest, w0 ≠ WsAtom.comment b :: rest) →
+        linesFit col (renderWs w0) = true → (posAfter line col (renderWs w0)).2 ≤ LINE → followOk .cif2 ctx = true →
+        ∃ ps', parseValue o (fuel + 1) ⟨⟨renderWs w0 ++ ((a!"\n;" ++ body ++ a!"\n;") ++ ctx), line, col, lt⟩, none⟩ pol W
+            = .ok (.chr true s, ps') W ∧ ps'.tok = none ∧ ps'.scan.rest = ctx) := by
+  obtain ⟨body, hw, _, hdec, hlex⟩ := C18_text_field_reads_back_all s unq tri limit hchars hd
+  refine ⟨body, hw, ?_⟩
+  intro w0 ctx line col lt pol W fuel hw0 hfirst hfitw hcolw hctx
+  have hu := okUnits_units .cif2 s none hchars
+  have h0 : (0 : CU) ∉ s := fun h => (hu 0 h).1 rfl
+  have hcs : cstr s = s := C01_cstr_id s (fun x hx e => h0 (e ▸ hx))
+  obtain ⟨L, C, hn⟩ := hlex w0 ctx line col lt pol W.log hw0 hfirst hfitw hcolw hctx
+  have hnt : nextTok o ⟨⟨renderWs w0 ++ ((a!"\n;" ++ body ++ a!"\n;") ++ ctx), line, col, lt⟩, none⟩ pol W
+      = .ok (⟨.tvalue, body, L, C⟩, ⟨⟨ctx, L, C, .tvalue⟩, some ⟨.tvalue, body, L, C⟩⟩) W := by
+    simp only [nextTok, bind, P.bind, liftL, hdia, hn, pure, P.pure]
+  refine ⟨⟨⟨ctx, L, C, .tvalue⟩, none⟩, ?_, rfl, rfl⟩
+  simp only [parseValue, bind, P.bind, hnt, hunf, hprem, hdec, hcs, pure, P.pure, consume]
+
+
+open Spec.Lexical Model.Lexer Model.Parser in
+/-- **C18, embedding behind a data name (non-text delimiters).**  Under the hypotheses of `C18_delim_reads_back_value`, the parser's
+    ITEM production (`parse_item`, entered behind the data name `name` of the container at `path`) on the recommended presentation
+    reports nothing and performs exactly `cif_container_set_value(name, .chr (δ ≠ none) s)`, leaving the scanner behind the value:
+    the recommended presentation is read back as exactly that string also as part of a data item of a document. -/
+theorem C18_delim_reads_back_item (s ctx : Str) (unq tri : Bool) (limit : Nat) (w : List WsAtom) (line col : Nat)
+    (lt : TokType) (pol : Policy) (o : Opts) (W : Model.Parser.W) (fuel : Nat) (path : Path) (name : Str)
+    (hdia : o.dia = .cif2)
+    (hchars : okUnits .cif2 none s = true) (hnt : recommend s unq tri limit ≠ .text)
+    (hok : ∀ a ∈ w, a.ok .cif2 = true)
+    (hfirst : afterWsOf lt = true ∨ ∀ b rest, w ≠ WsAtom.comment b :: rest)
+    (hws : (afterWsOf lt || !w.isEmpty) = true)
+    (hfitw : linesFit col (renderWs w) = true)
+    (hfit : linesFit (posAfter line col (renderWs w)).2
+              ((recommend s unq tri limit).units ++ s ++ (recommend s unq tri limit).units) = true)
+    (hctx : followOk .cif2 ctx = true) :
+    ∃ ps', parseItem o (fuel + 1)
+        ⟨⟨renderWs w ++ (((recommend s unq tri limit).units ++ s ++ (recommend s unq tri limit).units) ++ ctx), line, col, lt⟩, none⟩
+        (some path) (some name) pol W
+        = P.bind (setValue o path name (.chr (decide (recommend s unq tri limit ≠ .none)) s)) (fun _ => P.pure ps') pol W
+      ∧ ps'.tok = none ∧ ps'.scan.rest = ctx := by
+  have hu := okUnits_units .cif2 s none hchars
+  have h0 : (0 : CU) ∉ s := fun h => (hu 0 h).1 rfl
+  have hcs : cstr s = s := C01_cstr_id s (fun x hx e => h0 (e ▸ hx))
+  obtain ⟨L, C, hn⟩ := C18_delim_reads_back s ctx unq tri limit w line col lt pol W.log hchars hnt hok hfirst hws hfitw hfit hctx
+  by_cases hnone : recommend s unq tri limit = .none
+  · obtain ⟨hnd, hnr, hne, _, hq, hd, hone, _⟩ := (C18_delim_admissible s unq tri limit h0).1 hnone
+    have hterm := counters_one_line s hone
+    have hws2 : cif2WsDelimitable s := by
+      refine ⟨hne, fun c hc hl => hnr (Or.inl ⟨c, hc, hl⟩), ?_, fun h => hnr (Or.inr h)⟩
+      intro c hc hw
+      have a := hnd c hc; have b := hterm c hc
+      rcases hw with h | h | h | h | h | h | h | h
+      · exact a.1 h
+      · exact a.2.1 h
+      · exact b.1 h
+      · exact b.2 h
+      · exact a.2.2.1 h
+      · exact a.2.2.2.1 h
+      · exact a.2.2.2.2.1 h
+      · exact a.2.2.2.2.2 h
+    have hset := (C18_set_unquoted_iff s h0).2.2.1 hq hd hws2
+    have hbv : bareValue .cif2 s = some (.chr false s) := by
+      simp only [bareValue, hq, hd, if_false, hcs]
+      have : ((Dialect.cif2 == Dialect.cif1) : Bool) = false := rfl
+      rw [this, hset]
+    simp only [hnone, if_true, Delim.units, List.nil_append, List.append_nil] at hn
+    refine ⟨⟨⟨ctx, L, C, .value⟩, none⟩, ?_, rfl, rfl⟩
+    simp only [hnone, Delim.units, List.nil_append, List.append_nil, ne_eq, not_true_eq_false, decide_false]
+    simp only [parseItem, parseValue, bind, P.bind, nextTok, liftL, hdia, hn, isKeyTok, isValueStart, hbv, pure, P.pure,
+      consume, Bool.false_eq_true, ↓reduceIte]
+  · simp only [hnone, if_false] at hn
+    refine ⟨⟨⟨ctx, L, C, .qvalue⟩, none⟩, ?_, rfl, rfl⟩
+    simp only [ne_eq, hnone, not_false_eq_true, decide_true]
+    simp only [parseItem, parseValue, bind, P.bind, nextTok, liftL, hdia, hn, isKeyTok, isValueStart, hcs, pure, P.pure,
+      consume, Bool.false_eq_true, ↓reduceIte]
+
+open Spec.Lexical Model.Lexer Model.Parser Model.Writer in
+/-- **C18, embedding behind a data name (text fields).**  As `C18_text_field_reads_back_value`, one level up: `parse_item` behind a
+    data name on the emitted text field performs exactly `cif_container_set_value(name, .chr true s)`. -/
+theorem C18_text_field_reads_back_item (s : Str) (unq tri : Bool) (limit : Nat)
+    (hchars : okUnits .cif2 none s = true) (hd : (analyze s unq tri limit).delimLength = 2)
+    (o : Opts) (hdia : o.dia = .cif2) (hunf : o.unfold = true) (hprem : o.prem = true) :
+    ∃ body : Str,
+      (∀ c : Ctx, writeText c s (Lemmas.WriterChar.charFlags (analyze s unq tri limit)).1 (Lemmas.WriterChar.charFlags (analyze s unq tri limit)).2
+          = .ok (a!"\n;" ++ body ++ a!"\n;", { c with lastColumn := 1 })) ∧
+      (∀ (w0 : List WsAtom) (ctx : Str) (line col : Nat) (lt : TokType) (pol : Policy) (W : Model.Parser.W) (fuel : Nat)
+          (path : Path) (name : Str),
+        (∀ x ∈ w0, x.ok .cif2 = true) → (afterWsOf lt = true ∨ ∀ b rest, w0 ≠ WsAtom.comment b :: rest) →
+        linesFit col (renderWs w0) = true → (posAfter line col (renderWs w0)).2 ≤ LINE → followOk .cif2 ctx = true →
+        ∃ ps', parseItem o (fuel + 1) ⟨⟨renderWs w0 ++ ((a!"\n;" ++ body ++ a!"\n;") ++ ctx), line, col, lt⟩, none⟩
+              (some path) (some name) pol W
+            = P.bind (setValue o path name (.chr true s)) (fun _ => P.pure ps') pol W ∧ ps'.tok = none ∧ ps'.scan.rest = ctx) := by
+  obtain ⟨body, hw, _, hdec, hlex⟩ := C18_text_field_reads_back_all s unq tri limit hchars hd
+  refine ⟨body, hw, ?_⟩
+  intro w0 ctx line col lt pol W fuel path name hw0 hfirst hfitw hcolw hctx
+  have hu := okUnits_units .cif2 s none hchars
+  have h0 : (0 : CU) ∉ s := fun h => (hu 0 h).1 rfl
+  have hcs : cstr s = s := C01_cstr_id s (fun x hx e => h0 (e ▸ hx))
+  obtain ⟨L, C, hn⟩ := hlex w0 ctx line col lt pol W.log hw0 hfirst hfitw hcolw hctx
+  refine ⟨⟨⟨ctx, L, C, .tvalue⟩, none⟩, ?_, rfl, rfl⟩
+  simp only [parseItem, parseValue, bind, P.bind, nextTok, liftL, hdia, hn, isKeyTok, isValueStart, hunf, hprem,
+    hdec, hcs, pure, P.pure, consume, Bool.false_eq_true, ↓reduceIte]
+
+
 -- every hypothesis instantiated: the digit string `12` is recommended whitespace-delimited and comes back from parse_value as the
 -- UNQUOTED CHARACTER value `12` (not a number object); `a b` comes back as the quoted character value
 example (pol : Model.Lexer.Policy) : ∃ ps', Model.Parser.parseValue C01parse.opts2 3
@@ -81,5 +197,16 @@ example (pol : Model.Lexer.Policy) : ∃ ps', Model.Parser.parseValue C01parse.o
   have hr : recommend (a!"12") true true 2048 = .none := by decide
   rw [hr] at h
   simpa [Delim.units, Spec.Lexical.renderWs, Spec.Lexical.WsAtom.render] using h
+
+/-- the hypotheses of the text-field theorems at parser level hold for the CIF 2.0 default options and a string that needs the prefix
+    protocol; the item is stored as the quoted character value -/
+example : ∃ body : Str, ∀ (pol : Model.Lexer.Policy), ∃ ps', Model.Parser.parseItem C01parse.opts2 3
+    ⟨⟨[32] ++ ((a!"\n;" ++ body ++ a!"\n;") ++ [10]), 1, 3, .name⟩, none⟩ (some []) (some (a!"_x")) pol { log := [], cif := [] }
+      = Model.Parser.P.bind (Model.Parser.setValue C01parse.opts2 [] (a!"_x") (.chr true (a!"'''\"\"\"\n;x"))) (fun _ => Model.Parser.P.pure ps') pol { log := [], cif := [] }
+      ∧ ps'.tok = none ∧ ps'.scan.rest = [10] := by
+  obtain ⟨body, _, h⟩ := C18_text_field_reads_back_item (a!"'''\"\"\"\n;x") false true 2048 (by decide) (by decide) C01parse.opts2 rfl rfl rfl
+  refine ⟨body, fun pol => ?_⟩
+  have := h [.blank 32] [10] 1 3 .name pol { log := [], cif := [] } 2 [] (a!"_x") (by decide) (Or.inr (by intro b r h; cases h)) (by decide) (by decide) (by decide)
+  simpa [Spec.Lexical.renderWs, Spec.Lexical.WsAtom.render] using this
 
 end CifModel
